@@ -345,6 +345,8 @@ fn pair_pool() -> Vec<&'static str> {
         "http://xn--4db/", "http://\u{5d0}/", "http://u:p@h/", "blob:http://h/", "blob:http://h:80/x", "blob:blob:http://h/", "blob:https://h/", "blob:x",
         "blob:x", "file:///a", "file:///a", "file://h/a", "data:x", "data:x", "non-spec://h/", "non-spec://h:80/", "about:blank", "http://h:65535/", "https://h:65535/",
         "http://example.com/", "http://EXAMPLE.com:80/", "https://example.com/", "blob:https://example.com:443/uuid", "blob:ws://h", "blob:wss://h:443",
+        "http://127.0.0.1/", "http://[::ffff:127.0.0.1]/", "http://[::ffff:7f00:1]/", "http://[::127.0.0.1]/", "http://2130706433/", "https://example.com:80/", "http://example.com:443/",
+        "blob:https%3A//example.com/", "blob:https://example.com%2F@evil.test/1234",
     ]
 }
 
